@@ -135,6 +135,14 @@ def requests(events):
             out.append(("split", line, exp, ev))
             if pre is not None:
                 last_split = (missing, at, inst, d, p, ev)
+        elif ev["event"] == "reorder":
+            try:
+                class _NoInst(dict):
+                    def __missing__(self, k):
+                        return {"cids": []}
+                out.append(("reorder", "areorder\t" + pipe(ev["input"], _NoInst()), pipe(ev["output"], _NoInst()), ev))
+            except (Shape, KeyError, TypeError) as e:
+                out.append(("shape", None, str(e), ev))
         elif ev["event"] == "anchored" and last_split is not None:
             missing, at, inst0, d, p, sev = last_split
             last_split = None
@@ -196,6 +204,13 @@ def run_suite(ctx, progs, label, targets=("sql.sqlite",)):
             if a != exp:
                 bad += 1
                 ctx.disagreement("anchor-redirect", f"anchor_split differs from Model.Anchor.anchorSplit: real `{exp[:300]}` vs model `{a[:300]}`",
+                                 {"prql": p, "target": t, "request": line, "model": a, "real": exp})
+        elif kind == "reorder":
+            ctx.case(("reorder", line))
+            ctx.count(f"{label}:reorder" + (":moved" if line.split("\t", 1)[1] != exp else ""))
+            if a != exp:
+                bad += 1
+                ctx.disagreement("reorder", f"preprocess::reorder differs from Model.Reorder.reorderTr: real `{exp[:300]}` vs model `{a[:300]}`",
                                  {"prql": p, "target": t, "request": line, "model": a, "real": exp})
         elif kind == "scope":
             ctx.count(f"{label}:scope:{a}")
